@@ -278,6 +278,7 @@ func init() {
 		rule("R16-name-agreement", ruleNameAgreement).
 		rule("R16-client-fields", ruleClientFieldsNotRewritten).
 		rule("R16-keyed-subobjects", ruleKeyedSubobjects).
+		rule("R13-keyed-entries-agree", ruleKeyedEntriesAgree).
 		rule("R11-exhaustive", ruleExhaustive(nil)).
 		rule("R13-grpc-flags", ruleGrpcFlags).
 		rule("R13-http-code", ruleHttpCode).
@@ -410,6 +411,7 @@ func init() {
 		rule("R12-decode-nil", ruleDecodeNil).
 		rule("R12-union-access", ruleUnionAccess).
 		rule("R12-must-helpers", ruleMustHelpers).
+		rule("R12-library-panics", ruleLibraryPanics).
 		rule("R12-request-asserts", ruleRequestAsserts).
 		rule("R12-cursor", ruleCursorVerified).
 		rule("R12-pb-nil", rulePbNil).
@@ -424,6 +426,7 @@ func init() {
 		rule("R12-err-dominates-use", ruleErrDominatesUse).
 		rule("R12-records-index", ruleRecordsIndex).
 		rule("R12-nil-and-deref", ruleNilAndDeref).
+		rule("R12-nil-on-path", ruleNilOnPath(append(append([]string{pkgHttp, pkgGrpc, pkgSubApi, pkgCoroutines, pkgSystem, pkgIAio, pkgIApi, pkgStore, pkgPromise, pkgTask, pkgSchedule, pkgUtil}, workerPkgs...), storePkgs...)...)).
 		rule("R13-front-end-siblings", ruleFrontEndSiblings).
 		rule("M-stmt-prepared", ruleStmtPrepared).
 		rule("R10-cqe-well-formed", ruleCQEWellFormed).
@@ -448,6 +451,7 @@ func init() {
 		rule("R7-poll-channels", rulePollChannels).
 		rule("R7-poll-registry", rulePollRegistry).
 		rule("R7-poll-refusal", rulePollRefusal).
+		rule("R7-poll-handler-disconnects", rulePollHandlerDisconnects).
 		rule("R17-lifecycle-calls", ruleLifecycleCalls).
 		rule("R10-poll-done", func(c *Ctx) { n := 0; c.pollDoneOnce(&n) }).
 		rule("R12-decode-nil", ruleDecodeNil).
@@ -472,7 +476,7 @@ func init() {
 		rule("R10-exactly-once", ruleExactlyOnce).
 		rule("R10-cqe-well-formed", ruleCQEWellFormed).
 		rule("R7-http-plugin-outcome", ruleHttpPluginOutcome).
-		rule("R7-sender-process", ruleTables(tblSenderProcess)).
+		rule("R7-sender-process", ruleSenderTables).
 		rule("R16-decode-fresh", ruleDecodeFresh).
 		rule("R16-swapped-arguments", ruleSwappedArguments)
 }
